@@ -59,28 +59,49 @@ def _is_immutable_literal(node) -> bool:
     return False
 
 
+def _loop_stores(path):
+    """[(index, event)] of stores into the `loop` attribute of the state handle on a path
+    (inside the context manager that `assign` provides, whatever its form)"""
+    return [(i, e) for i, e in enumerate(path.events)
+            if e.kind == 'store' and isinstance(e.node, ast.Attribute)
+            and e.node.attr == 'loop' and e.data.get('value') is not None]
+
+
 def check_assign_restores(check, an: Analysis, rule: str):
-    """StateHandler.assign puts the previous loop back on every way out of its block"""
+    """
+    Around the events of a run the state handle names the running loop, and whatever ends
+    the run -- also an exception -- the loop named before is put back: decided on the paths
+    of Loop.run with the context of `StateHandler.assign` run in place (a generator context
+    manager or a context manager object)
+    """
     assign = an.callee(HANDLER, 'assign')
-    paths = an.paths(assign)
+    run_m = an.callee(LOOP, 'run')
+    inline = lambda callee, depth: callee.fn.qn.startswith(HANDLER_MOD)  # noqa: E731
+    paths = an.inlined_paths(run_m, inline, 2)
     verdict, n, bad = True, 0, None
     for path in paths:
-        swaps = [i for i, e in enumerate(path.events) if e.kind == 'store'
-                 and e['path'] == 'self.loop']
-        holes = [i for i, e in enumerate(path.events) if e.kind == 'hole']
-        if not holes:
+        stores = _loop_stores(path)
+        ran = [i for i, e in enumerate(path.events) if is_call_to(e, '_run_events')
+               and e.kind in ('call', 'enter', 'susp')]
+        if not stores and not ran:
             continue
         n += 1
-        before = [i for i in swaps if i < holes[0]]
-        after = [i for i in swaps if i > holes[0]]
-        ok = len(before) == 1 and len(after) == 1 and \
-            _restores_saved(path.events[before[0]], path.events[after[0]], assign.fn)
+        ok = len(stores) == 2 and bool(ran) and stores[0][0] < ran[0] < stores[1][0]
+        if ok:
+            (first, set_), (last, reset) = stores
+            handle = rules.value_text(path, first, set_.node.value)
+            ok = handle == rules.value_text(path, last, reset.node.value) and \
+                rules.value_text(path, first, set_['value']) == 'self'
+            reads = []
+            held = rules.value_expr(path, last, reset['value'], trace=reads)
+            ok = ok and rules.normalise_state_aliases(ast.unparse(held)) == \
+                '%s.loop' % handle and bool(reads) and min(reads) <= first
         if not ok:
             verdict = False
             bad = bad or path
-    check.instance(rule, 'StateHandler.assign:restores', verdict and n >= 3,
-                   where_fn(assign.fn), 'every way out of the managed block (%d paths incl. '
-                   'exceptions) stores the previously saved loop back' % n,
+    check.instance(rule, 'StateHandler.assign:restores', verdict and n >= 2,
+                   where_fn(assign.fn), 'every way out of the managed block (%d paths of '
+                   'Loop.run incl. exceptions) stores the previously saved loop back' % n,
                    path=rules.path_lines(bad) if bad else None, analysed=n)
 
 
@@ -118,9 +139,13 @@ def run(check, an: Analysis):
         ast.unparse(values[0][0]) == 'StateHandler()'
     check.instance('X', '__USIM_STATE__', ok, HANDLER_MOD, 'the one state handle is a '
                    'StateHandler() instance')
+    # (a context manager object handed out by `assign` does the writing for it)
+    managers = {t[1] for t in an.te.ret_type(an.callee(HANDLER, 'assign')) if t[0] == 'inst'
+                and an.p.find_method(t[1], '__enter__') and an.p.find_method(t[1], '__exit__')}
     for fn, stmt, target, recvs in rules.attribute_stores(an, 'loop', HANDLER):
-        ok = fn.cls is not None and fn.cls.qn == HANDLER and fn.name in ('__init__',
-                                                                        'assign')
+        ok = fn.cls is not None and (
+            (fn.cls.qn == HANDLER and fn.name in ('__init__', 'assign'))
+            or (fn.cls.qn in managers and fn.name in ('__enter__', '__exit__')))
         check.instance('X', 'loop-writer:%s' % short(fn.qn), ok,
                        '%s:%d' % (fn.module.relpath, stmt.lineno),
                        'the current loop is set by %s' % short(fn.qn), nontrivial=False)
@@ -180,9 +205,14 @@ def run(check, an: Analysis):
     verdict = False
     for path in an.paths(run_m):
         if path.normal:
-            enter = [i for i, e in enumerate(path.events) if e.kind == 'ctx-enter'
-                     and e['callee'].fn.name == 'assign']
-            leave = [i for i, e in enumerate(path.events) if e.kind == 'ctx-exit']
+            def assigned(event):
+                expr = event.node.items[0].context_expr
+                return isinstance(expr, ast.Call) and isinstance(expr.func, ast.Attribute) \
+                    and expr.func.attr == 'assign'
+            enter = [i for i, e in enumerate(path.events)
+                     if e.kind in ('ctx-enter', 'with-enter') and assigned(e)]
+            leave = [i for i, e in enumerate(path.events)
+                     if e.kind in ('ctx-exit', 'with-exit') and assigned(e)]
             events = [i for i, e in enumerate(path.events)
                       if is_call_to(e, '_run_events') and e.depth == 0]
             arg_ok = bool(enter) and [ast.unparse(a) for a in path.events[
